@@ -16,11 +16,11 @@ CHECKS = {
             "Both directions of the iff are enumerated: counts one below, at and above every bound, every subset of simultaneously violated expectations within the bounds, final verification through all three entry points."),
     "C04": ("model_checking", "3.2, 3.3, 6/C04", "Assemble.tla FlatOK + Mock.tla OrderedPrefix by TLC; from every accepted prefix every next call replayed on the real mock; slot partition for unbounded counts by Apalache",
             "Cumulative slot ranges equal the flattened expected sequence in the model; the real mock accepts exactly the model's prefixes and answers each slot with its response; the first deviation panics with the class the model gives."),
-    "C07": ("model_checking", "3.3, 6/C07", "TLC invariants FallbackTable/NoFabrication on Mock.tla; the complete decision table replayed on the universe methods",
+    "C07": ("model_checking", "3.3, 6/C07", "TLC invariants FallbackTable/NoFabrication on Mock.tla; the complete decision table replayed on the universe methods; Shapes.tla FallbackExpected enumerated over receiver kinds as generated traits",
             "The decision table is finite and enumerated completely (strict/partial x unmentioned/unmatched/matched x default/unmock/both/neither x any/ord x position); outcomes (default body ran / real function ran / panic class) and untouched counters are compared with the real code."),
     "C08": ("model_checking", "3.3, 6/C08", "TLC invariant ErrorsRemembered on Mock.tla; every error kind and user panics replayed, final verify() message compared with the observed panic texts",
             "Three engines: (1) every mock-induced error class at every position of short histories with user panics that must not be recorded, the verification message must contain each observed error text in order; (2) errors on the original vs a clone, on the creator thread vs another, caught or not, followed by verify()/report()/drop on the original (Lifecycle.tla); (3) several threads erring concurrently under every schedule, AllErrorsRecorded by trace validation."),
-    "C12": ("model_checking", "3.3, 6/C12", "TLC invariant SingleDelivery on Mock.tla; clone/drop counters of every configured value compared after teardown",
+    "C12": ("model_checking", "3.3, 6/C12", "TLC invariant SingleDelivery on Mock.tla; clone/drop counters of every configured value compared after teardown; Conc.tla + every schedule of racing requesters (plain and composite single-use values, repeat-use values) validated by ConcTrace.tla; Shapes.tla cases; must-not-compile chains",
             "Three engines: (1) sequential histories of 0..N requests for single-use and repeat-use values on the original and over clones with clone/drop conservation; (2) owned leaves inside Option/Result/Vec/Poll/tuple composites (Shapes.tla cases as generated programs); (3) 2-4 threads racing for the value under every schedule and free-running, SingleDelivery by trace validation. (Compile-time refusal of multi-use quantifiers on non-Clone values: see C14's compile-fail chains.)"),
     "C15": ("model_checking", "3.3, 6/C15", "Mock.tla default-body frames (scripts of nested required-method calls) enumerated by TLC and replayed through the real default bodies",
             "Two engines: (1) default bodies with scripts of nested required calls on the universe, mixed with direct calls so that counts and ordered slots interleave (Mock.tla frames, replay); (2) every receiver kind (&self, &mut self, by value, Rc, Arc, Pin) x 0-3 required calls x implicit / applies_default_impl() x ordered / counted patterns x sole / shared owner as generated traits (Shapes.tla DelegateExpected). Led to the fix of the solely-owned Rc/Arc defect."),
